@@ -176,6 +176,41 @@ def re_cross_conj(Ev, Hv, p):
     return A._real(v)
 
 
+def grouped(configs, chunk):
+    """Every configuration is a few hundred milliseconds of work but a worker process costs seconds
+    to start (jax / fdtdx imports): configurations of one kind are run back to back inside one task,
+    each under its own obligation-name prefix (no configuration forks, so nothing is re-executed)."""
+    from vc.harness import Task
+
+    by_kind = {}
+    for label in configs:
+        by_kind.setdefault(label.split("/")[0], []).append(label)
+    out = {}
+    for kind, labels in by_kind.items():
+        for gi in range(0, len(labels), chunk):
+            group = labels[gi : gi + chunk]
+
+            def body(c, inp, group=group):
+                for label in group:
+                    orig = c.prove
+
+                    def pr(name, goal, *a, _o=orig, _p=label + ":", **kw):
+                        return _o(_p + name, goal, *a, **kw)
+
+                    inp.scalars.clear()
+                    inp.arrays.clear()
+                    inp.notes.clear()
+                    c.prove = pr
+                    try:
+                        configs[label](c, inp)
+                    finally:
+                        c.prove = orig
+
+            out[f"{kind}/{gi // chunk:02d}"] = Task(body)
+    return out
+
+
+
 # ---------------------------------------------------------------------------------------
 # concrete scenes for replay / bounded end-to-end runs (real JAX)
 # ---------------------------------------------------------------------------------------
